@@ -6,6 +6,8 @@ import json, glob, os, subprocess, sys
 tag, outdir = sys.argv[1], sys.argv[2]
 props = sys.argv[3:] or [f"C{i:02d}" for i in range(1, 21) if i != 19]
 os.makedirs(outdir, exist_ok=True)
+IDEAS = os.environ.get('SEED_IDEAS') or """- Ideas to consider this round: code the property depends on INDIRECTLY (helpers shared between components, e.g. the condition-variable wait helper, the cleaner functions, the context combinators used inside other types, the broadcast primitive used inside the pub-sub, option/constructor plumbing); arithmetic and boundary conditions (overflow, off-by-one at capacity or at zero, negative or extreme durations/counts/sizes, very large batches or very many participants); behaviour that only shows after a long history on one object (hundreds of operations, wrap-around of a counter, reuse after the object has been idle or emptied); re-entrancy (a user callback that calls back into the same object); an operation that is interrupted half-way (panic in a user callback, context cancelled exactly between two internal steps) followed by normal use. Still only non-test source, still must pass the existing suite, still subtle.
+"""
 for p in props:
     planted = []
     for d in sorted(glob.glob(f'/verif/seeded/{p}-*')):
@@ -22,7 +24,7 @@ ADDITIONAL CONSTRAINTS FOR THIS ROUND:
 - The machine is shared and can be heavily loaded: wall-clock based tests of OTHER components (TestExclusiveRateLimit, TestWaitDuration_*, TestWorkers_Call, TestChanPubSub_withSpammingSubscribeUnsubscribe, TestConsumer_Get_inputCanceled, ...) may flake; judge a suite failure by whether the failing test can possibly be affected by your change and re-run it in isolation.
 - Other people have ALREADY planted the following changes for this property; yours must be genuinely different from all of them (different code site or different mechanism), not variations:
 """ + "\n".join("    * " + s for s in planted) + """
-- Ideas to consider this round: code the property depends on INDIRECTLY (helpers shared between components, e.g. the condition-variable wait helper, the cleaner functions, the context combinators used inside other types, the broadcast primitive used inside the pub-sub, option/constructor plumbing); arithmetic and boundary conditions (overflow, off-by-one at capacity or at zero, negative or extreme durations/counts/sizes, very large batches or very many participants); behaviour that only shows after a long history on one object (hundreds of operations, wrap-around of a counter, reuse after the object has been idle or emptied); re-entrancy (a user callback that calls back into the same object); an operation that is interrupted half-way (panic in a user callback, context cancelled exactly between two internal steps) followed by normal use. Still only non-test source, still must pass the existing suite, still subtle.
+""" + IDEAS + """
 """
     txt = subprocess.run(['python3', '/verif/tools/seed_prompt.py', p, '3', extra], capture_output=True, text=True).stdout
     txt = txt.replace(f'/tmp/seed-out/{p}-k/', f'/tmp/seed-out/{p}-{tag}-k/')
